@@ -307,7 +307,7 @@ func profile(r *lib.RNG) lib.Profile {
 	p.MaxStmts = 8 + r.Intn(14)
 	p.MaxDepth = 3 + r.Intn(2)
 	p.Chaos = 20
-	p.NoFormat = true
+	p.FormatPure = true // format() is decided by the formatter model of C17 inside the reference interpreter
 	return p
 }
 
